@@ -397,11 +397,11 @@ def check_reject(case):
 
 
 PARTS = [
-    Part("algebra", check_algebra, {"quick": 2400, "thorough": 60000}, strategy=st_algebra),
-    Part("deep", check_algebra, {"quick": 300, "thorough": 12000},
+    Part("algebra", check_algebra, {"quick": 4800, "thorough": 60000}, strategy=st_algebra),
+    Part("deep", check_algebra, {"quick": 600, "thorough": 12000},
          strategy=lambda: LO.st_tree(max_depth=3, max_in=24, first_round_robin=False)),
-    Part("big", check_big, {"quick": 700, "thorough": 16000}, strategy=st_big),
-    Part("reject", check_reject, {"quick": 1600, "thorough": 30000}, strategy=st_reject),
+    Part("big", check_big, {"quick": 1400, "thorough": 16000}, strategy=st_big),
+    Part("reject", check_reject, {"quick": 3200, "thorough": 30000}, strategy=st_reject),
 ]
 
 # thorough tier: the same Hypothesis tests driven by atheris/libFuzzer (coverage on sigpy.linop/util plain-Python code)
